@@ -36,6 +36,7 @@ type fwdParams struct {
 	FaultFree        bool
 	HoldReplies      bool // backends hold every reply until the whole workload has been sent
 	LowestFree       bool // clients reuse the lowest free stream id
+	RichCQL          bool // statements from the CQL grammar generator (ground truth only for the non-idempotent class)
 	CheckTokens      bool // C02 oracle: the reply carries the token of the request on that stream
 }
 
@@ -245,6 +246,10 @@ func (f *fwd) sendOne(i int) {
 		if ch.Choose("garbage?", 40) == 39 {
 			st = world.Stmt{Text: "FROBNICATE " + tok + " ;;", Idempotent: false}
 		}
+		if f.p.RichCQL && ch.Choose("rich", 3) != 0 {
+			g := world.GenCQL(ch, tok, ch.Choose("richclass", 3) != 0)
+			st = world.Stmt{Text: g.Text, Idempotent: g.Idempotent}
+		}
 		st.Text = world.Variant(ch, st.Text)
 		ri.kind, ri.idem = "query", st.Idempotent
 		ri.specs = f.script(tok, c.Version)
@@ -282,6 +287,12 @@ func (f *fwd) sendOne(i int) {
 		for j := 0; j < n; j++ {
 			if ch.Choose("batchchild", 2) == 0 {
 				st := world.DrawMutation(ch, "'"+tok+"'", "ks.t")
+				if f.p.RichCQL && ch.Choose("richchild", 2) == 1 {
+					g := world.GenCQL(ch, tok, ch.Choose("richclass", 2) == 1)
+					if !strings.HasPrefix(strings.ToUpper(g.Text), "BEGIN") {
+						st = world.Stmt{Text: g.Text, Idempotent: g.Idempotent}
+					}
+				}
 				idem = idem && st.Idempotent
 				b.Children = append(b.Children, &message.BatchChild{Query: st.Text})
 			} else {
